@@ -22,6 +22,21 @@ CLAIMED = {
   "text": "Machine-checked proof that the regenerated model of pkg/cast encodes every value of every fixed-width type as its little-endian image of the type's size, that decode-after-encode and encode-after-decode are identities for all values / all byte strings of that size, and that every other length is rejected with the sentinel; floats as raw bit patterns, bool as the normalising 1-byte case. Tied to the code by regeneration and ~10k differential cases per run.",
   "note": TB1 + AX},
 }
+TB2 = "Trusted: Coq 8.16.1 kernel + vm_compute; the hand model JL.model.Row of pkg/jsonline's row.go / value.go, tied to the code only by the correspondence check (every run: ~400 generated histories of public operations executed on the real package built from /repo's working tree, the model evaluated on the same histories inside coqc, every step's error class, row state and reader answers compared); the regenerated Layer-1 model of pkg/cast and of the jsonline conversions underneath it (translator); Layer-0 specifications of the Go standard library; the Go harness and its direct oracles. "
+CLAIMED.update({
+ "C06": {
+  "technique": "Coq theorems (invariant by induction over operation histories + refinement to an association list) over a hand-written Gallina model of row.go, tied to the code by differential execution of generated histories; reference insertion-ordered map oracle on the real package",
+  "text": "Machine-checked proof that in the row model every finite history of Set, SetAtIndex, SetValue, SetValueAtIndex, ImportAtKey, ImportAtIndex, Import (slices; maps in any iteration order), ImportAtPath, UnmarshalJSON and CloneRow, with arbitrary keys (all byte strings), indexes (all of Z), paths and values, successful or failing, keeps the invariant 'the key list has no duplicates and lists exactly the keys of the map'; that every mutator is a sequence of stores (replace in place or append) so that keys are never moved, duplicated or dropped; that the concrete row refines the abstract insertion-ordered association list; that lookups return the last stored value; that length, Has, iteration and in-range positional access follow the key list. Serialisation order is covered by C01/C03's writer theorems and by the harness oracle. The model is hand-written and tied to row.go by the rowops correspondence stream.",
+  "note": TB2 + AX},
+ "C17": {
+  "technique": "Coq theorems (deep well-formedness invariant, induction on fuel and on histories, C10's cast totality) showing the Panic outcome of the hand-written row model unreachable + differential execution under recover() + resource/depth oracles on the real package",
+  "text": "Machine-checked proof that in the row model — which returns Panic exactly where the Go code would panic (a panicking cast, a method call on a nil Value when a listed key is missing from the map, the b.([]byte)/str.(string) assertions of the binary conversions) — no mutator, no reader (Has, Get, GetAtIndex, GetValue, GetValueAtIndex, Len, Iter, GetAtPath, GetValueAtPath, FindValuesAtPath, the sixteen typed getters, Raw, Export) and no history of them from the empty row returns Panic, for every key, index in Z, path and value whose nested rows are themselves well formed; absent data come back as (nil,false) / zero values. PARTIAL: MapTo (reflect), String/DebugString, importer/exporter/streamer entry points are exercised on the implementation only (every call under recover()); stack depth at nesting 10^4 and the resource blow-up of nested marshal errors (O13) are runtime matters a Gallina model cannot exhibit and are checked by the harness's depth and resource oracles only.",
+  "note": TB2 + AX},
+ "C18": {
+  "technique": "Coq theorems (induction over path segments) over the hand-written row model: path lookup = key-by-key navigation, import-at-path hit and frame lemmas + differential execution + built-vs-parsed document oracle on the real package",
+  "text": "Machine-checked proof that in the row model GetValueAtPath(join \".\" keys) equals the reference key-by-key navigation for every row (built through the API or produced by the JSON reader), every non-empty list of segments without '.', empty segments included; that nested objects are reached identically through a row stored as a value and through an Auto value holding a row; that ImportAtPath replaces exactly the addressed value by the result of importing into it, leaves every diverging path untouched and reports a missing path without changing anything. PARTIAL: for FindValuesAtPath only the array-free case is a theorem; document order across arrays of objects is decided by the correspondence stream and by the harness's document oracle (reference walk over generated documents, built and parsed).",
+  "note": TB2 + AX},
+})
 NOT_YET = "work in progress: the check for this property is not built yet (planned in DESIGN.md section 9)"
 
 def main():
@@ -29,7 +44,7 @@ def main():
     m = {"version": 1, "setup_cmd": "./setup.sh",
          "hooks": {"guard": "verif", "enable": "go build -tags verif (the harness is built with it from /repo's working tree)",
                    "baseline_off_cmd": "cd /repo && GOPROXY=off GOSUMDB=off GOTOOLCHAIN=local go test -json -vet=off -count=1 -timeout 25m ./...",
-                   "source_commits": [], "add_only": True},
+                   "source_commits": ["baf09cb"], "add_only": True},
          "engines": [
              {"name": "coq-proof", "path": "/verif/coq", "serves_properties": sorted(CLAIMED),
               "kind_free_text": "Coq 8.16.1 development: Layer 0 (Go stdlib specs), Layer 1 (regenerated from Go by /verif/translator on every run), hand models, proofs, property theorems"},
